@@ -35,6 +35,11 @@ CHECKS = {
     technique="TLA+ machine semantics (Machine.tla); TLC explores all programs <=N instrs (MachineMC) whose runs are replayed on the real executor; real step-by-step executions validated by TLC trace checking (MachineTrace)",
     text="spec->code: TLC builds every program of <=3 (quick) / <=4 (thorough) instructions over an alphabet with unstructured jump targets, runs it on Machine with a step bound, checks the machine invariants (used = mapped, injective unit module, fault leaves state untouched, shared registers only written by ret_reg) and prints each finished run, which the rig replays on the real Executor comparing the pc sequence and the final state. code->spec: systematic suffixes after a setup prefix, two-subroutine histories and random programs (<=40 instrs) are executed on the real Executor one instruction at a time; the projected state after every step (registers, arrays, shared memory, unit module, used set, pc, status, fault line) is validated by TLC as a behaviour of Machine, with a total verdict per case.",
     note="Trusted: TLC, harness/rig.py projection. Unspecified situations (arithmetic/branch on undefined registers, negative indices) are accepted and not counted. Gate/measure hooks are the rig's (scripted outcomes)."),
+ "C03": dict(
+    engine="asm", category="translation_validation", design="5 C03",
+    technique="TLA+ source-level semantics + product with Machine (AsmRefine.tla); the real assembler's output for each generated source program is validated by TLC in lock-step over all small register valuations",
+    text="Source programs (labels anywhere incl. consecutive and trailing, literals in every operand position incl. array indices and slice bounds, forward/backward jumps, register pressure up to 15 named R registers, macros with prefix-related keys, bracketed arguments, comments) are assembled by the REAL assembler through the IR path and the text paths; TLC runs the source semantics and the assembled program block by block for every valuation of the named registers and checks agreement on named registers, arrays, shared memory, qubits, quantum events, branch targets, instruction order and length. The repository's executor is not involved.",
+    note="Trusted: TLC, Machine.tla as instruction semantics, the rig's rendering of source programs (harness/eng_asm.py). Two defects found by this check were repaired in /repo (dcd0b1e, 0ec57d5)."),
 }
 
 REASON_TODO = "check not built yet (work in progress; see DESIGN.md section 9)"
